@@ -451,7 +451,17 @@ func (d *Data) SplitCoarseLabels(v dvid.VersionID, fromLabel, splitLabel uint64,
 	if err != nil {
 		return
 	}
-	numBlocks, _ := splits.Stats()
+	// The blocks of the split must be blocks of the label: check the runs against that number
+	// before anything is sized by what the client declares.
+	var labelBlocks uint32
+	if labelBlocks, _, err = getSparseVolBlocks(datastore.NewVersionedCtx(d, v), fromLabel); err != nil {
+		return
+	}
+	var numBlocks uint64
+	if numBlocks, err = splits.NumCoarseBlocks(uint64(labelBlocks)); err != nil {
+		err = fmt.Errorf("bad coarse split of label %d: %v", fromLabel, err)
+		return
+	}
 
 	mutID := d.NewMutationID()
 	splitOp := labels.SplitOp{
